@@ -13,7 +13,11 @@ Definition interpf (f : string) (a : list float) : float :=
   if String.eqb f "neg" then PrimFloat.opp x else
   if String.eqb f "sqrt" then PrimFloat.sqrt x else
   if String.eqb f "fabs" then PrimFloat.abs x else
-  if String.eqb f "?:" then (if PrimFloat.ltb 0%float x then y else nth 2 a nan) else nan.
+  if String.eqb f "?:" then (if PrimFloat.ltb 0%float x then y else nth 2 a nan) else
+  if String.eqb f ">" then (if PrimFloat.ltb y x then 1%float else 0%float) else
+  if String.eqb f ">=" then (if PrimFloat.leb y x then 1%float else 0%float) else
+  if String.eqb f "||" then (if PrimFloat.eqb x 0%float then (if PrimFloat.eqb y 0%float then 0%float else 1%float) else 1%float) else
+  if String.eqb f "&&" then (if PrimFloat.eqb x 0%float then 0%float else if PrimFloat.eqb y 0%float then 0%float else 1%float) else nan.
 
 Definition envl (l : list (string * float)) (x : string) : float :=
   match lookup x l with Some v => v | None => nan end.
@@ -22,9 +26,15 @@ Record Case := MkCase {
   t_call : list string; t_base : list string;
   t_assigns : list (string * expr float string);
   t_rho : list (string * float);
-  t_expect : list (string * float)     (* base parameter -> value observed through the probe *)
+  t_expect : list (string * float);    (* base parameter -> value observed through the probe *)
+  t_valid : expr float string;         (* the base model's validity expression *)
+  t_valid_obs : bool                   (* did the kernel evaluate the point (true) or skip it as invalid (false) *)
 }.
+Definition model_valid (c : Case) : bool :=
+  negb (PrimFloat.eqb (generated_valid float interpf (t_call c) (t_base c) (t_assigns c) (envl (t_rho c)) (fun _ => nan) (t_valid c)) 0%float).
 Definition check_case (tol : float) (c : Case) : bool :=
+  Bool.eqb (model_valid c) (t_valid_obs c) && negb (t_valid_obs c) ||
+  Bool.eqb (model_valid c) (t_valid_obs c) &&
   forallb (fun '(p, v) =>
     let g := generated_arg float interpf (t_call c) (t_base c) (t_assigns c) (envl (t_rho c)) (fun _ => nan) p in
     closeb tol 0x1p-1000%float (PrimFloat.add (PrimFloat.abs v) 1%float) g v) (t_expect c).
